@@ -9,6 +9,7 @@ import re
 import copy
 from common import *
 import vparse, vsim, gen_vdesigns as GV, dump_ir as D
+import c01_mem
 
 OBLIGATIONS = ['C01.inline_and2', 'C01.inline_or2', 'C01.inline_xor2', 'C01.inline_not', 'C01.inline_buf', 'C01.inline_nand2',
                'C01.inline_nor2', 'C01.inline_add', 'C01.inline_sub', 'C01.inline_mul', 'C01.inline_shl', 'C01.inline_shr',
@@ -565,8 +566,15 @@ def main(res, tier, rng, replay):
     res.cov['obligations'] = res.cov.get('obligations', 0) + c1[0]
     res.cov['discharged'] = res.cov.get('discharged', 0) + c1[1]
     res.cov['axioms_seen'] = sorted(set(res.cov.get('axioms_seen', [])) | set(c1[2]))
-    res.cov['checker_cmd'] = ('cd lean && lake build Py4hwV.Props.C01 Py4hwV.Props.C01Flat Py4hwV.Props.C01Hier && #print axioms on every '
-                              'obligation')
+    # fourth proof stage + stream: the hand-written bodies of the three memories (harness/c01_mem.py, notes/C01mem.md)
+    c2 = (res.cov.get('obligations', 0), res.cov.get('discharged', 0), list(res.cov.get('axioms_seen', [])))
+    res.proof_stage('Py4hwV.Props.C01Mem', c01_mem.OBLIGATIONS_MEM)
+    res.cov['obligations'] = res.cov.get('obligations', 0) + c2[0]
+    res.cov['discharged'] = res.cov.get('discharged', 0) + c2[1]
+    res.cov['axioms_seen'] = sorted(set(res.cov.get('axioms_seen', [])) | set(c2[2]))
+    res.cov['checker_cmd'] = ('cd lean && lake build Py4hwV.Props.C01 Py4hwV.Props.C01Flat Py4hwV.Props.C01Hier Py4hwV.Props.C01Mem && '
+                              '#print axioms on every obligation')
+    c01_mem.stream(res, tier, rng.fork('mem-stream'))
     n = 400 if tier == 'quick' else 8000
     vb = vsim.VBatch()
     jobs = []
